@@ -27,7 +27,15 @@ def interleaved_pure(ctx, label, modules, jobs, stride=1, second_counts=(None, 3
     for m in modules:
         S.adopt_locks(m)
     codes = module_codes(*modules)
-    want = {k: f() for k, f in jobs.items()}
+    try:
+        want = {k: f() for k, f in jobs.items()}
+    except Exception as e:
+        # the jobs are valid operations: failing when run one after the other is a violation, not a harness error
+        from ..runner import exc_sig
+        ctx.ev()
+        ctx.fail("interleaved/%s/sequential-exception/%s" % (label, exc_sig(e)), {"kind": "interleaved", "label": label, "plan": []},
+                 repr(e)[:300])
+        return 0, 0, 0
     done = 0
     with S.Monitor(S.Sched(), codes, lines=True) as mon:
         def run(plan):
